@@ -96,6 +96,8 @@ for isa in ("x86", "aarch64"):
                         if missing != "none" and (tables != "typed" or found != "full" or mult):
                             continue
                         SCENARIOS.append(dict(isa=isa, role=role, tables=tables, mult=mult, found=found, missing=missing))
+        # register form with alternative port assignments (a dict of micro-op lists)
+        SCENARIOS.append(dict(isa=isa, role=role, tables="typed", mult=False, found="full", missing="none", alternatives=True))
 
 
 def compose_unit(isa):
@@ -104,6 +106,7 @@ def compose_unit(isa):
         ex.no_init |= {"ParserX86ATT", "ParserAArch64", "MachineModel"}
         for sc in [s for s in SCENARIOS if s["isa"] == isa]:
             role, tables, mult, found, missing = sc["role"], sc["tables"], sc["mult"], sc["found"], sc["missing"]
+            alts = sc.get("alternatives", False)
             R = {n: z3.Real(n) for n in ("lc1", "lc2", "sc1", "sc2", "dl", "ds", "ll", "tp", "lat", "rc1", "rc2", "ml", "ms")}
             pre = [v >= 0 for v in R.values()]
             rt = "gpr" if isa == "x86" else "x"  # register type of the data register
@@ -133,10 +136,12 @@ def compose_unit(isa):
                     data["store_throughput_multiplier"] = {rt: sn("ms")}
                 mm = SObj("MachineModel", _data=data)
                 uops = [[sn("rc1"), "01"], [sn("rc2"), "0"]]
+                uops_b = [[sn("rc2"), "1"]]
+                entry_uops = {0: uops, 1: uops_b} if alts else uops
                 mn_full = "addq" if isa == "x86" else "add.s"
                 entry = new("InstructionForm", mnemonic="ADD", operands=[reg("gpr") if isa == "x86" else new("RegisterOperand", prefix="x"),
                                                                            reg("gpr") if isa == "x86" else new("RegisterOperand", prefix="x")],
-                            throughput=None if missing == "tp" else sn("tp"), latency=None if missing == "lat" else sn("lat"), port_pressure=uops)
+                            throughput=None if missing == "tp" else sn("tp"), latency=None if missing == "lat" else sn("lat"), port_pressure=entry_uops)
                 parser = SObj("ParserX86ATT" if isa == "x86" else "ParserAArch64")
                 sem = SObj("ArchSemantics", _machine_model=mm, _isa=isa, _parser=parser)
                 mem = Mrow(offset=new("ImmediateOperand", value=SNum(z3.Int("disp"), True)), base=reg("rbx" if isa == "x86" else "2"))
@@ -166,7 +171,7 @@ def compose_unit(isa):
                 ebefore = snapshot(entry)
                 ex.call_method("ArchSemantics", "assign_tp_lt", sem, [iform])
                 ex.extra.update(frame=same(before, snapshot(mm.fields["_data"]), "model") + same(ebefore, snapshot(entry), "entry"), iform=iform,
-                                lrows=lrows, srows=srows, uops=uops, data=data, calls=calls)
+                                lrows=lrows, srows=srows, uops=uops, uops_b=uops_b, data=data, calls=calls)
                 return iform
 
             paths = ex.explore(run, pre)
@@ -183,10 +188,16 @@ def compose_unit(isa):
                     return z3.And(g)
                 # expected rows
                 load_uops = e["data"]["load_throughput_default"] if tables == "default" else e["lrows"][1][1]
-                store_uops = e["data"]["store_throughput_default"] if tables in ("default", "untyped") else e["srows"][1][1]
-                exp_uops = list(e["uops"]) + (list(load_uops) if role in ("load", "rmw") else []) + (list(store_uops) if role in ("store", "rmw") else [])
+                store_uops = e["data"]["store_throughput_default"] if tables == "default" else e["srows"][1][1]  # (an untyped row holds for every register type)
+                data_uops = (list(load_uops) if role in ("load", "rmw") else []) + (list(store_uops) if role in ("store", "rmw") else [])
+                exp_uops = list(e["uops"]) + data_uops
                 got_uops = f["_port_uops"]
-                g = [z3.BoolVal(isinstance(got_uops, list) and len(got_uops) == len(exp_uops) and all(a is b for a, b in zip(got_uops, exp_uops)))]
+                same_list = lambda got, exp: isinstance(got, list) and len(got) == len(exp) and all(a is b for a, b in zip(got, exp))
+                if alts:
+                    # every alternative of the register form is followed by the load/store micro-ops; the pressure is that of option 0
+                    g = [z3.BoolVal(isinstance(got_uops, dict) and list(got_uops) == [0, 1] and same_list(got_uops[0], exp_uops) and same_list(got_uops[1], list(e["uops_b"]) + data_uops))]
+                else:
+                    g = [z3.BoolVal(same_list(got_uops, exp_uops))]
                 lp = avg(load_uops) if role in ("load", "rmw") else [z3.RealVal(0)] * len(PORTS)
                 sp = avg(store_uops) if role in ("store", "rmw") else [z3.RealVal(0)] * len(PORTS)
                 if mult:
@@ -209,7 +220,7 @@ def compose_unit(isa):
                 g.append(z3.BoolVal((FL["TP"] in f["_flags"]) == (missing == "tp") and (FL["LT"] in f["_flags"]) == (missing == "lat")))
                 return z3.And(g)
 
-            tag = f"{role}/{tables}/mult={int(mult)}/{found}/missing={missing}"
+            tag = f"{role}/{tables}/mult={int(mult)}/{found}/missing={missing}" + ("/alternatives" if alts else "")
             res.add_paths(paths, post, kind=tag, label="Pb")
             for p in paths:
                 if p.outcome[0] == "ret":
@@ -243,7 +254,8 @@ class OptStr:
 
 def table_units(which):
     """P: MachineModel.get_load_throughput / get_store_throughput for tables with ANY number of rows: the result is exactly the
-    rows (in order) whose addressing matches (and, for stores with a source register, that are typed and of that type);
+    rows (in order) whose addressing matches (for stores with a source register: those typed for that type, if there is none those
+    without a source type);
     if there is none, the pair (memory, copy of the default list).  _match_mem_entries: ISA dispatch and argument order."""
     def unit(res):
         ex = Engine([REPO + "/" + f for f in FILES])
@@ -295,7 +307,14 @@ def table_units(which):
 
             paths = ex.explore(run, [N >= 0])
             j, k = z3.Ints("j k")
-            sel = (lambda i: match(rowmem(i))) if not with_src else (lambda i: z3.And(match(rowmem(i)), has_src(rowmem(i)), src_ok(rowmem(i))))
+            if not with_src:
+                sel = lambda i: match(rowmem(i))
+            else:
+                # typed rows of the data register's type; if there is none, the rows without a source type (they hold for every type)
+                typed = lambda i: z3.And(match(rowmem(i)), has_src(rowmem(i)), src_ok(rowmem(i)))
+                jt = z3.Int("jt")
+                anytyped = z3.Exists([jt], z3.And(0 <= jt, jt < N, typed(jt)))
+                sel = lambda i: z3.If(anytyped, typed(i), z3.And(match(rowmem(i)), z3.Not(has_src(rowmem(i)))))
             anysel = z3.Exists([j], z3.And(0 <= j, j < N, sel(j)))
 
             def post(v, p):
